@@ -500,10 +500,11 @@ Qed.
 (* the ensemble Brier cell of the model computes brier_q                                             *)
 (* ---------------------------------------------------------------------------------------------- *)
 Lemma brier_cell_arith (fair : bool) i m o : (m == 1 /\ i * (m - i) == 0) \/ 2 <= m ->
-  (let r := xpow2 (xsub (xdiv (XFin i) (XFin m)) (XFin o)) in
-   if fair then xsub r (xfillna (xdiv (xmul (XFin i) (xsub (XFin m) (XFin i))) (xmul (xpow2 (XFin m)) (xsub (XFin m) X1))) X0) else r)
+  (let r := gen_brier_score (XFin i) (XFin m) (XFin o) in
+   if fair then xsub r (gen_brier_fair_fill (gen_brier_fair_corr (XFin i) (XFin m))) else r)
   =x= XFin ((i / m - o) * (i / m - o) - (if fair then i * (m - i) / (m * m * (m - 1)) else 0)).
 Proof.
+  unfold gen_brier_score, gen_brier_fair_fill, gen_brier_fair_corr.
   intros [[Hm Hi] | Hm]; destruct fair; unfold X0, X1; cell; try lra; try nra.
   - assert (D : m * m * (m - 1) == 0) by nra. rewrite D. unfold Qdiv. change (/ 0) with 0. ring.
   - field. split; lra.
@@ -515,7 +516,7 @@ Proof.
   intro Hne. unfold brier_ens_cell, brier_q. cbv zeta.
   assert (Ei : map (fun x => b2x (xge x (XFin t))) (fins X) = fins (map (fun x => q_ind_ge x t) X)).
   { unfold fins. rewrite !map_map. apply map_ext. intro a. unfold q_ind_ge. cbn. destruct (Qle_bool t a); reflexivity. }
-  assert (Em : map (fun x => b2x (xnotnull x)) (fins X) = fins (map (fun _ => 1) X)).
+  assert (Em : map (fun x => b2x (gen_brier_member_valid x)) (fins X) = fins (map (fun _ => 1) X)).
   { unfold fins. rewrite !map_map. apply map_ext. intro a. reflexivity. }
   rewrite Ei, Em.
   pose proof (xsum_fins (map (fun x => q_ind_ge x t) X)) as I. pose proof (xsum_fins (map (fun _ : Q => 1) X)) as M.
@@ -532,6 +533,22 @@ Proof.
   rewrite (brier_cell_arith fair i m (q_ind_ge y t) C). cbn [xeq].
   assert (Mm : m == qlen X) by (rewrite M; ring).
   destruct fair; rewrite I, Mm; reflexivity.
+Qed.
+
+(* an infinite member is a valid member beyond every threshold: the cell scores it exactly as it scores any finite member at or
+   above (+inf), resp. below (-inf), the threshold -- it is counted in m, and in i iff it is +inf.  Any other members (missing,
+   infinite), any observation. *)
+Theorem brier_cell_inf_member fair A B y t M (s : bool) :
+  (if s then t <= M else M < t) ->
+  brier_ens_cell fair (A ++ XInf s :: B) y (XFin t) = brier_ens_cell fair (A ++ XFin M :: B) y (XFin t).
+Proof.
+  intro H. unfold brier_ens_cell. rewrite !map_app. cbn [map].
+  assert (E1 : b2x (xge (XInf s) (XFin t)) = b2x (xge (XFin M) (XFin t))).
+  { destruct s; cbn.
+    - apply Qle_bool_iff in H. rewrite H. reflexivity.
+    - destruct (Qle_bool t M) eqn:E; [apply Qle_bool_iff in E; lra | reflexivity]. }
+  assert (E2 : b2x (gen_brier_member_valid (XInf s)) = b2x (gen_brier_member_valid (XFin M))) by reflexivity.
+  rewrite E1, E2. reflexivity.
 Qed.
 
 (* the interval variant rejects exactly lower >= upper (scalar and array form of the check) *)
